@@ -362,7 +362,9 @@ func (h *Hist) Exec(op string) *BlockResult {
 		w, _ := strconv.ParseUint(f[5], 10, 64)
 		sp := registrytypes.DataSpec{ResponseValueType: f[3], AggregationMethod: f[4], Registrar: a.Addr.String(), ReportBlockWindow: w,
 			AbiComponents: []*registrytypes.ABIComponent{{Name: "asset", FieldType: "string"}, {Name: "currency", FieldType: "string"}}}
-		h.queue(op, "regspec", a, 600000, nil, &registrytypes.MsgRegisterSpec{Registrar: a.Addr.String(), QueryType: f[2], Spec: sp})
+		// "~" stands for a space and "^" for a tab in the query type (the op language splits on white space)
+		qt := strings.NewReplacer("~", " ", "^", "\t").Replace(f[2])
+		h.queue(op, "regspec", a, 600000, nil, &registrytypes.MsgRegisterSpec{Registrar: a.Addr.String(), QueryType: qt, Spec: sp})
 	case "addq": // add a query (type, asset, currency) to the harness' query table
 		sp := registrytypes.DataSpec{AbiComponents: []*registrytypes.ABIComponent{{Name: "asset", FieldType: "string"}, {Name: "currency", FieldType: "string"}}}
 		b, err := sp.EncodeData(f[1], fmt.Sprintf(`["%s","%s"]`, f[2], f[3]))
